@@ -210,4 +210,7 @@ DiagonalOK(A, d) == \A i \in Rows(A) : (i \in RowCols(A, i) /\ Cardinality({p \i
 \* Gershgorin bound, unscaled: max_i sum_j |a_ij| (exact on integers)
 GershgorinDef(A) == IF A.n = 0 THEN 0
                     ELSE MaxOf({MapThenSumSet(LAMBDA p : Abs(A.val[p]), RowPos(A, i)) : i \in Rows(A)})
+\* scaled by the inverse diagonal (every row has exactly one diagonal entry, a power of two): * 2^8
+GershgorinScaledDef(A) == IF A.n = 0 THEN 0
+                          ELSE MaxOf({(256 * MapThenSumSet(LAMBDA p : Abs(A.val[p]), RowPos(A, i))) \div Abs(At(A, i, i)) : i \in Rows(A)})
 =============================================================================
